@@ -58,3 +58,26 @@ Proof.
   intros w H. unfold w0 in H. destruct (run cfg0 verify0 (world_init cfg0) evs0) as [[w' outs]|] eqn:E; [|discriminate H].
   injection H as <-. apply (reachable_inv cfg0 verify0 w'). exists evs0, outs. exact E.
 Qed.
+
+(* a server with a password ("registration needs the right password" is not vacuous): the connection that sends the
+   password that verifies is registered, the one that sends another is not and is closed, the one that sends none is not *)
+Definition cfg1 : config :=
+  {| cfg_name := cfg_name cfg0; cfg_admin_info := cfg_admin_info cfg0; cfg_admin_info2 := None; cfg_admin_email := None; cfg_info := cfg_info cfg0;
+     cfg_motd := cfg_motd cfg0; cfg_network := cfg_network cfg0; cfg_password := Some (lit "HASH"); cfg_max_connections := None; cfg_max_joins := None;
+     cfg_ping_timeout := 120; cfg_pong_timeout := 20; cfg_default_umodes := cfg_default_umodes cfg0;
+     cfg_operators := []; cfg_users := []; cfg_channels := []; cfg_pkg_name := lit "p"; cfg_pkg_version := lit "1" |}.
+Definition verify1 (p h : str) : bool := str_eqb p (lit "secret") && str_eqb h (lit "HASH").
+
+Definition evs1 : list (nat * event) :=
+  [ (0%nat, EvOpen false); (0%nat, EvLine (lit "PASS secret")); (0%nat, EvLine (lit "NICK alice")); (0%nat, EvLine (lit "USER alice 8 * :Alice"));
+    (1%nat, EvOpen false); (1%nat, EvLine (lit "PASS guess")); (1%nat, EvLine (lit "NICK bob")); (1%nat, EvLine (lit "USER bob 8 * :Bob"));
+    (2%nat, EvOpen false); (2%nat, EvLine (lit "NICK carol")); (2%nat, EvLine (lit "USER carol 8 * :Carol")) ].
+
+Example password_world :
+  match run cfg1 verify1 (world_init cfg1) evs1 with
+  | Ok (w, _) => List.map fst (map_to_list (users (sh w))) = [lit "alice"]
+                 /\ (c_auth <$> conns w !! 0%nat) = Some true /\ (c_pass <$> conns w !! 0%nat) = Some (Some (lit "secret"))
+                 /\ conns w !! 1%nat = None /\ conns w !! 2%nat = None
+  | Panic _ => False
+  end.
+Proof. vm_compute. repeat split; reflexivity. Qed.
